@@ -79,11 +79,12 @@ def sym_brew(ctx, cfg):
     return PathOutcome(props, inputs, None, note=a[0])
 
 
-def _conf_once(ctx, cfg, C, U, n, cchunk, mchunk, dest, suffix=".pin"):
-    from symx import vfs, symnp, core
+def _conf_once(ctx, cfg, C, U, n, cchunk, mchunk, dest, suffix=".pin", sched=False):
+    from symx import vfs, symnp, core, stubs
     from symx.core import SNum
     ps, s = conflib.make_collection(ctx, n, 0, "bool", suffix=suffix)
     C.CONFIDENCE_CHUNK_SIZE, U.MERGE_SORT_CHUNK_SIZE = cchunk, mchunk
+    stubs.MODE[0] = "nondet" if sched else "submission"
     try:
         c03.run_confidence(ctx, cfg, C, [s], [ps], [symnp.SArray([SNum(z) for z in s["score"]], symnp.float64)], None, cfg["dedup"], True, True, [None], dest=dest)
         out = {}
@@ -95,6 +96,8 @@ def _conf_once(ctx, cfg, C, U, n, cchunk, mchunk, dest, suffix=".pin"):
         raise
     except Exception as ex:
         return ("exc", type(ex).__name__ + ":" + str(ex)[:60], s)
+    finally:
+        stubs.MODE[0] = "submission"
 
 
 def sym_conf(ctx, cfg):
@@ -107,10 +110,14 @@ def sym_conf(ctx, cfg):
     big = n + 1
     cc = int(ctx.fresh_int("confidence_chunk", 1, big)) if cfg["vary"] in ("confidence", "both") else big
     mc = int(ctx.fresh_int("merge_sort_chunk", 1, big)) if cfg["vary"] in ("merge", "both") else big
-    a = _conf_once(ctx, cfg, C, U, n, cc, mc, "/vfs/outA", cfg.get("suffix", ".pin"))
+    from symx import stubs
+    del stubs.ORDERS[:]
+    a = _conf_once(ctx, cfg, C, U, n, cc, mc, "/vfs/outA", cfg.get("suffix", ".pin"), sched=bool(cfg.get("sched")))
+    orders = [list(o) for o in stubs.ORDERS]
     b = _conf_once(ctx, cfg, C, U, n, big, big, "/vfs/outB", ".pin")
     s = a[2]
-    inputs = dict(collections=conflib.collection_inputs([s]), confidence_chunk=cc, merge_sort_chunk=mc, dedup=cfg["dedup"], suffix=cfg.get("suffix", ".pin"))
+    inputs = dict(collections=conflib.collection_inputs([s]), confidence_chunk=cc, merge_sort_chunk=mc, dedup=cfg["dedup"], suffix=cfg.get("suffix", ".pin"),
+                  task_orders=orders)
     props = []
     if a[0] != b[0]:
         props.append(("run_fails_iff_reference_fails: varied=%s reference=%s" % (a[1] if a[0] == "exc" else "ok", b[1] if b[0] == "exc" else "ok"), z3.BoolVal(False)))
@@ -156,7 +163,9 @@ def harnesses(tier):
         addc("n=3,dedup,confidence chunk", dict(n=3, dedup=True, vary="confidence"))
         addc("n=3,no dedup,confidence+merge chunk", dict(n=3, dedup=False, vary="both"))
         addc("n=3,dedup,parquet vs text", dict(n=3, dedup=True, vary="confidence", suffix=".parquet"))
+        addc("n=3,dedup,confidence chunk,task completion order", dict(n=3, dedup=True, vary="confidence", sched=True))
     else:
+        addc("n=3,no dedup,confidence chunk,task completion order", dict(n=3, dedup=False, vary="confidence", sched=True), 0.005)
         addb("n=5,folds=2,prediction chunk", dict(sizes=[5], folds=2, vary="prediction"), 0.01)
         addb("n=5,folds=3,prediction chunk", dict(sizes=[5], folds=3, vary="prediction"), 0.01)
         addb("n=4,folds=2,read chunk,task order", dict(sizes=[4], folds=2, vary="read", sched=True), 0.01)
@@ -213,7 +222,9 @@ def real_conf_rel(cfg, inp):
     C = __import__("importlib").import_module("mokapot.confidence") and __import__("sys").modules["mokapot.confidence"]
     U = __import__("sys").modules["mokapot.utils"]
 
-    def run(d, suffix, cc, mc):
+    orders = [o for o in (inp.get("task_orders") or []) if len(o) > 1]
+
+    def run(d, suffix, cc, mc, force=None):
         os.makedirs(os.path.join(d, "in"))
         os.makedirs(os.path.join(d, "out"))
         p, df = c03.real_collection(os.path.join(d, "in"), 0, inp["collections"][0], "bool", suffix)
@@ -222,16 +233,31 @@ def real_conf_rel(cfg, inp):
         old = (C.CONFIDENCE_CHUNK_SIZE, U.MERGE_SORT_CHUNK_SIZE, C.peps_from_scores)
         C.CONFIDENCE_CHUNK_SIZE, U.MERGE_SORT_CHUNK_SIZE = cc, mc
         C.peps_from_scores = lambda s, t, a="qvality": np.full(len(s), 0.5)
+        orig_save = C._save_sorted_metadata_chunks
+        workers = 1
+        if force:
+            # real threads; the task that writes chunk i finishes at the position the model gives it
+            import re as _re
+            import time as _time
+            workers = len(force)
+
+            def slow_save(chunk_metadata, score_chunk, psms_, dedup_, path_):
+                m = _re.search(r"scores_metadata_(\d+)", str(path_))
+                i = int(m.group(1)) if m else 0
+                _time.sleep(0.4 * (force.index(i) if i in force else 0))
+                return orig_save(chunk_metadata, score_chunk, psms_, dedup_, path_)
+            C._save_sorted_metadata_chunks = slow_save
         try:
-            mokapot.assign_confidence([ps], max_workers=1, scores=[np.array(sc, dtype=float)], descs=[True], dest_dir=Path(d) / "out", prefixes=[None], decoys=True,
+            mokapot.assign_confidence([ps], max_workers=workers, scores=[np.array(sc, dtype=float)], descs=[True], dest_dir=Path(d) / "out", prefixes=[None], decoys=True,
                                       deduplication=bool(inp["dedup"]))
             return ("ok", {f: open(os.path.join(d, "out", f)).read() for f in sorted(os.listdir(os.path.join(d, "out")))})
         except Exception as ex:
             return ("exc", "%s: %s" % (type(ex).__name__, ex))
         finally:
             C.CONFIDENCE_CHUNK_SIZE, U.MERGE_SORT_CHUNK_SIZE, C.peps_from_scores = old
+            C._save_sorted_metadata_chunks = orig_save
     with tempfile.TemporaryDirectory(prefix="verif_c05c_") as d1, tempfile.TemporaryDirectory(prefix="verif_c05d_") as d2:
-        a = run(d1, inp.get("suffix", ".pin"), int(inp["confidence_chunk"]), int(inp["merge_sort_chunk"]))
+        a = run(d1, inp.get("suffix", ".pin"), int(inp["confidence_chunk"]), int(inp["merge_sort_chunk"]), force=orders[0] if (orders and cfg.get("_failed")) else None)
         b = run(d2, ".pin", 10 ** 6, 10 ** 6)
     if a[0] != b[0]:
         return dict(violation="confidence chunk %s / merge chunk %s (%s): %s, reference: %s" % (inp["confidence_chunk"], inp["merge_sort_chunk"], inp.get("suffix"), a, b))
